@@ -242,7 +242,7 @@ class ScoOperationsRegistry(AbstractScoOperationsRegistry):
             )
             return InvocationState.FAILED
 
-        return InvocationState.FINISHED
+        return execute_result.invocation_state  # the response carries the same final state as the report
 
     def start_worker(self):
         """Start worker thread."""
